@@ -121,7 +121,11 @@ pub mod site {
 
 /// Event kinds (observations).
 pub mod ev {
-    pub const PACKET_ADD: u32 = 1; // a = stage, s = type name (event_str), or a=stage b=count
+    /// a = stage (or `STAGE_DESIGNATED`), c = packet identity (not part of any trace hash);
+    /// preceded by an `event_str` with the type name.
+    pub const PACKET_ADD: u32 = 1;
+    /// Pseudo stage for packets pushed to a worker's `designated_work` queue.
+    pub const STAGE_DESIGNATED: usize = 1000;
     pub const PACKET_RUN: u32 = 2; // a = worker ordinal, s = type name
     pub const PACKET_DONE: u32 = 3; // a = worker ordinal
     pub const BUCKET_OPEN: u32 = 4; // a = stage
